@@ -121,6 +121,19 @@ class Sim(object):
             self._fail("getitem-slice:" + w, "sp[%r:%r] = %r, expected %r (len %d)" % (a, b, r, exp, n))
         self._sync("getitem-slice")
 
+    def op_getstep(self, pa, pb, k):
+        """slice read with a step (the implementation documents that it supports steps other than 1)"""
+        a = self.pos(pa)
+        b = self.pos(pb)
+        n = len(self.m)
+        w = "stop-" + self.where(b)
+        r = self._call("getitem-slice-step:" + w, lambda: self.sp[a:b:k])
+        padded = bytes(self.m) + self.pad * max(0, b - n)
+        exp = padded[a:b:k]
+        if r != exp:
+            self._fail("getitem-slice-step:" + w, "sp[%r:%r:%r] = %r, expected %r (len %d)" % (a, b, k, r, exp, n))
+        self._sync("getitem-slice")
+
     # writes -----------------------------------------------------------
     def _model_write(self, a, data):
         end = a + len(data)
@@ -229,6 +242,7 @@ def history_strategy():
         st.tuples(st.just("getneg"), st.integers(0, 7)).map(list),
         st.tuples(st.just("gets"), pos, st.one_of(st.none(), pos)).map(list),
         st.tuples(st.just("gets"), pos, pos).map(list),
+        st.tuples(st.just("getstep"), pos, pos, st.integers(2, 4)).map(list),
         st.tuples(st.just("seti"), pos, st.one_of(data1, data1, data1, data)).map(list),
         st.tuples(st.just("sets"), pos, st.one_of(data1, data1, data1, data)).map(list),
         st.tuples(st.just("setnone"), pos).map(list),
@@ -251,7 +265,7 @@ class C33(Check):
             "gap; empty data and None included), +=, find/rfind with optional start/end, `in`, len, bytes; content "
             "and len compared with a bytearray model after every operation. Bytes from {00,61,62,ff} so searches "
             "hit. Non-trivial: a search (find/rfind/in) executed after a write or append; distinct by history.")
-    assumptions = ["indices and slice bounds are non-negative (negative int indices only within -len..-1), no slice step",
+    assumptions = ["indices and slice bounds are non-negative (negative int indices only within -len..-1), slice steps 1..4 on reads only",
                    "slice writes have len(data) == stop - start (callers' usage); other lengths are out of domain",
                    "the padding byte is a single byte",
                    "a write ending past the end grows the buffer with padding up to the end of the write "
